@@ -55,8 +55,15 @@ func c10Scenarios(tier string) []e1lib.Scenario {
 		}
 	}
 	gen(nil)
-	for par := 1; par <= 3; par++ {
+	maxPar := 3
+	if tier == "thorough" {
+		maxPar = 4
+	}
+	for par := 1; par <= maxPar; par++ {
 		for _, in := range inputs {
+			if par == 4 && len(in) > 3 {
+				continue
+			}
 			if tier == "quick" && par == 3 && len(in) == 3 && !(in[0] <= in[1] && in[1] <= in[2]) {
 				continue // quick: at par 3 only sorted inputs of length 3 (the monoids are commutative; thorough runs all)
 			}
@@ -97,6 +104,6 @@ func c10Scenarios(tier string) []e1lib.Scenario {
 
 func propC10() drv.Property {
 	return table("C10",
-		"one case = fork.Fold x worker count 1..3 x every input sequence over a 3-letter alphabet of length <= 3 (4 in thorough), including empty and shorter than the worker count x monoid {sum with injective weights (the sum is the bag of elements, so exactly-once is visible), product, max, min, bitwise and, bitwise or} x input capacity {0, len}; every interleaving = every distribution of elements over workers and every arrival order of partial results at the collector; the result is deterministic by design, non-trivial = at least two elements, two workers and more than one schedule",
+		"one case = fork.Fold x worker count 1..3 (4 in thorough, inputs up to length 3) x every input sequence over a 3-letter alphabet of length <= 3 (4 in thorough), including empty and shorter than the worker count x monoid {sum with injective weights (the sum is the bag of elements, so exactly-once is visible), product, max, min, bitwise and, bitwise or} x input capacity {0, len}; every interleaving = every distribution of elements over workers and every arrival order of partial results at the collector; the result is deterministic by design, non-trivial = at least two elements, two workers and more than one schedule",
 		commonAssumptions, c10Scenarios)
 }
